@@ -66,10 +66,15 @@ def world(I, has_seg=False, lineage=True, inv=("forest", "trackids", "b1", "b2")
         W.assumed += T.B1(v, K, ta.fields["lineage_id_to_nodes"], "lin")
     if "b2" in inv:
         W.assumed += T.B2(v, K, W.maxT(), W.maxL())
+    # C10/F1: the enabled track features are registered as node features
+    from pyvc.tracksfactory import ftype as _ft
+    from pyvc.terms import lit as _lit
+    W.assumed.append(("C10.F1.tracklet", AND(W.F.has(K.trk), _ft(W.F.at(K.trk)) == _lit("node"))))
+    W.assumed.append(("C10.F1.lineage", IMP(W.act["lineage"], AND(W.F.has(K.lk), _ft(W.F.at(K.lk)) == _lit("node")))))
     # typing of lineage ids: an int or absent
     W.assumed.append(("typing.lineage", forall([a_], OR(is_VInt(T.lid(v, K, a_)), is_VNone(T.lid(v, K, a_))))))
-    for _, f in W.assumed:
-        ctx.assume(f)
+    for lbl, f in W.assumed:
+        ctx.assume(f, "inv." + lbl)
     W.v0 = v
     W.below = {}
     ctx.ghost["key_terms"] = [K.tk, K.trk, K.lk, K.pk]
@@ -82,18 +87,18 @@ def world(I, has_seg=False, lineage=True, inv=("forest", "trackids", "b1", "b2")
         W.bel0 = B
         W.lemma_uses = ["M2' segment_facts (Lean: theory/lean/Segments.lean)"]
         for _, f in T.segment_facts(v, K, B.rel):
-            ctx.assume(f)
+            ctx.assume(f, "seg")
     return W
 
 
-def below_of(I, W, facts=None):
+def below_of(I, W, facts=None, view=None):
     """The descendant closure of the *current* graph version (created on first use)."""
-    v = W.st.v
+    v = view if view is not None else W.st.v
     key = v.E.name()
     if key not in W.below:
         B = T.Below(I.ctx, v, W.K)
-        for _, f in B.facts():
-            I.ctx.assume(f)
+        for nm, f in B.facts():
+            I.ctx.assume(f, "below." + nm)
         # M3 (monotonicity): fewer edges, fewer descendants
         for B0 in W.below.values():
             if I.ctx.entails(forall([a_, b_], IMP(v.E(a_, b_), B0.v.E(a_, b_)))):
@@ -134,16 +139,29 @@ class WalkAssumed(Contract):
         upd_lin = z3.BoolVal(False) if nl is None else AND(z3.Not(is_VNone(to_z3(nl, Val))), W.act["lineage"])
         newl = VNone if nl is None else to_z3(nl, Val)
         bel = below_of(I, W)
+        # M3'' (relative monotonicity from a start node, by induction on the path): if every edge met below
+        # `start` in one graph version is an edge of another version, the descendants of `start` carry over
+        for B0 in list(W.below.values()):
+            if B0 is bel:
+                continue
+            ctx.assume(IMP(forall([a_, b_], IMP(AND(bel(start, a_), v0.E(a_, b_)), B0.v.E(a_, b_))),
+                           forall([a_], IMP(bel(start, a_), B0.rel(start, a_)))))
+            ctx.assume(IMP(forall([a_, b_], IMP(AND(B0.rel(start, a_), B0.v.E(a_, b_)), v0.E(a_, b_))),
+                           forall([a_], IMP(B0.rel(start, a_), bel(start, a_)))))
         tidf = lambda n: T.tid(v0, K, n)
         tag = f"{ctx.func}/call/_handle_update_track_ids"
         n_call = ctx.ghost.setdefault("walk_calls", 0)
         ctx.ghost["walk_calls"] += 1
         tag = f"{tag}#{n_call}"
+        # a walk that keeps the track id (new == old: lineage-only relabel) rewrites no track id whatever the
+        # shape below start is, so P1/P2 are required only when the id really changes
+        same_tid = ctx.entails(new == old)
+        keep = z3.BoolVal(True) if same_tid else (new == old)
         ctx.oblige(f"{tag}/requires:P1(old-id edges below start leave non-dividing nodes)",
-                   forall([a_, b_], IMP(AND(bel(start, a_), v0.E(a_, b_), tidf(a_) == old, tidf(b_) == old), v0.od(a_) == 1)),
+                   OR(keep, forall([a_, b_], IMP(AND(bel(start, a_), v0.E(a_, b_), tidf(a_) == old, tidf(b_) == old), v0.od(a_) == 1))),
                    kind="pre", props=("C04",))
         ctx.oblige(f"{tag}/requires:P2(old id does not reappear below another id)",
-                   forall([a_, b_], IMP(AND(bel(start, a_), v0.E(a_, b_), tidf(a_) != old), tidf(b_) != old)),
+                   OR(keep, forall([a_, b_], IMP(AND(bel(start, a_), v0.E(a_, b_), tidf(a_) != old), tidf(b_) != old))),
                    kind="pre", props=("C04",))
         ctx.oblige(f"{tag}/requires:start-in-graph", v0.N(start), kind="pre", props=("C04",))
         ctx.oblige(f"{tag}/requires:old-id-is-start's-id", tidf(start) == old, kind="pre", props=("C04",))
@@ -152,12 +170,15 @@ class WalkAssumed(Contract):
             ctx.oblige(f"{tag}/requires:{lbl}", f, kind="pre", props=("C06",))
         # effect
         trk, lk = K.trk, K.lk
-        st.upd("A", lambda oldA, a, k: z3.If(AND(k == trk, bel(start, a), oldA(a, trk) == old), new,
-                                            z3.If(AND(k == lk, upd_lin, bel(start, a)), newl, oldA(a, k))))
+        if same_tid:
+            st.upd("A", lambda oldA, a, k: z3.If(AND(k == lk, upd_lin, bel(start, a)), newl, oldA(a, k)))
+        else:
+            st.upd("A", lambda oldA, a, k: z3.If(AND(k == trk, bel(start, a), oldA(a, trk) == old), new,
+                                                z3.If(AND(k == lk, upd_lin, bel(start, a)), newl, oldA(a, k))))
         v1 = st.v
         cT.havoc(ctx)
         for _, f in T.B1(v1, K, cT, "trk"):
-            ctx.assume(f)
+            ctx.assume(f, "cache.T2N.B1")
         mT = to_z3(ta.fields["max_tracklet_id"], Int)
         ta.fields["max_tracklet_id"] = Sym(z3.If(iv(new) > mT, iv(new), mT))
         cL = ta.fields["lineage_id_to_nodes"]
